@@ -178,6 +178,17 @@ func (cc cconf) clone() cconf { return append(cconf(nil), cc...) }
 
 var errC15NotFound = errors.New("c15: not found")
 
+var (
+	statOnce sync.Once
+	cstat    *cache.Stat
+)
+
+// one Stat per process: every NewStat starts a reporting goroutine that never ends
+func clusterStat() *cache.Stat {
+	statOnce.Do(func() { cstat = cache.NewStat("verif-c15") })
+	return cstat
+}
+
 // router observes where a dispatcher sends keys. owner[i] = server index, -1 = go-zero reported
 // that it has no node for the key; ok=false: the transport misbehaved (inconclusive).
 type router interface {
@@ -503,7 +514,7 @@ func runCluster(c *kit.Case, ctor string, nKeys int) {
 		if ctor == "kv.NewStore" {
 			return kvRouter{kv.NewStore(cc.clusterConf())}
 		}
-		return cacheRouter{cache.New(cc.clusterConf(), syncx.NewSingleFlight(), cache.NewStat("verif-c15"), errC15NotFound)}
+		return cacheRouter{cache.New(cc.clusterConf(), syncx.NewSingleFlight(), clusterStat(), errC15NotFound)}
 	}
 	keys := make([]string, nKeys)
 	for i := range keys {
